@@ -22,6 +22,8 @@ SPACE = {
     'shape': ['flat', 'ramp'],
     'noise': [False, True],
     'oob': [False, 'outside', 'straddle'],
+    # the amplifier object has already amplified another comb (same channel count, mirrored frequencies, other level)
+    'warm': [False, True],
 }
 
 
@@ -269,6 +271,14 @@ def run_case(case):
     where = (f'{case["model"]} gain={gain} tilt={case["tilt"]} in_voa={case["in_voa"]} out_voa={case["out_voa"]} comb='
              f'{case["comb"]} level={case["level"]} {case["shape"]} noise={case["noise"]} oob={case["oob"]}')
     try:
+        if case.get('warm'):
+            from gnpy.core.info import create_arbitrary_spectral_information
+            order = np.argsort(band[0] + band[1] - pre['f'])
+            warm = create_arbitrary_spectral_information(
+                frequency=(band[0] + band[1] - pre['f'])[order], pch=pre['pch'][order] * 0.5, baud_rate=pre['baud'][order],
+                slot_width=pre['slot'][order], tx_osnr=40.0, tx_power=1e-3, roll_off=0.1, label='w')
+            amp(warm)
+            where += ' (amplifier used before on the mirrored comb)'
         out = amp(si)
     except Exception as exc:  # noqa
         v(f'amplifier-raised:{type(exc).__name__}', f'{where}: {type(exc).__name__}: {exc}')
